@@ -4,7 +4,7 @@ import XdocModel.Generated
 # Model of `docstr/docscrape_google.py` : `split_google_docblocks`
 
 Steps of the code, in order: `textwrap.dedent`; split at `\n`; the first-line indentation
-adjustment and the second dedent; "true" indentation (an empty line inherits the previous one's,
+adjustment (padding with the whitespace of the least indented later line) and the second dedent; "true" indentation (an empty line inherits the previous one's,
 `None` before the first non-empty line); the group labelling loop (a tag line opens a group if it
 is the last line or is followed by an indented line, an empty line or another tag line; a return
 to indentation 0 closes a tag group); grouping of the lines by label; one block per group, except
@@ -50,6 +50,15 @@ def isTagLine (line : Str) : Bool :=
 /-- `len(line) - len(line.lstrip())` -/
 def getIndentation (l : Str) : Nat := l.length - (lstrip l).length
 
+/-- what the first line is padded with: the leading whitespace (`line_[:n_]`, blanks or tabs) of the first later non-empty
+    line whose indentation is the minimum `m` (repair of the tab-indented docstring defect: it used to be `' ' * m`, which a
+    tab margin does not share, so the second `dedent` removed nothing); the `none` branch is unreachable (the minimum is
+    attained) and keeps the old padding, as the code's initial value of `lead` does -/
+def leadOf (m : Nat) (ls : List Str) : Str :=
+  match ls.find? (fun l => decide (l.length > 0) && getIndentation l == m) with
+  | some l => l.take m
+  | none => List.replicate m ' '
+
 /-- the lines the labelling loop works on -/
 def prepLines (docstr : Str) : List Str :=
   let ls := dedentLines (splitOn '\n' docstr)
@@ -59,7 +68,7 @@ def prepLines (docstr : Str) : List Str :=
       -- indentation of the non-empty lines; the first line takes the minimum of the others
       match ((l0 :: l1 :: rest).filter (fun l => l.length > 0)).map getIndentation with
       | _ :: i1 :: is =>
-        dedentLines ((List.replicate (is.foldl min i1) ' ' ++ l0) :: l1 :: rest)
+        dedentLines ((leadOf (is.foldl min i1) (l1 :: rest) ++ l0) :: l1 :: rest)
       | _ => ls
     else ls
   | _ => ls
